@@ -57,7 +57,7 @@ theorem callCb_eq {U : Universe} [hp : U.Passive] (hn : NoRaise U) (s : St) (o :
     callCb U s o m e =
       ({ s with calls := Dict.set s.calls (o, m) ((Dict.get? s.calls (o, m)).getD 0 + 1),
                 log := e :: s.log }, .ok) := by
-  unfold callCb; simp only [hn o m, hp.noReact]
+  unfold callCb; simp only [hn o m, hp.noReact, Universe.NoReenter.noReenter]
 
 theorem ctrlRecord_remove (U : Universe) (s : St) (o : Obj) (ent : Option Ent) :
     ctrlRecord U s onRemove o ent = s := by
